@@ -17,7 +17,7 @@ func guardFor(prop string, p prog.Program) prog.Guard {
 	case "C01", "C02", "C03":
 		return prog.Chain(prog.GuardF2, gcGuard(prop, p))
 	case "C15":
-		return prog.Chain(prog.GuardF2, prog.GuardF6, prog.GuardF10F11(p), gcGuard(prop, p))
+		return prog.Chain(prog.GuardF2, prog.GuardF6, prog.GuardF10F11(p), prog.GuardF49, gcGuard(prop, p))
 	}
 	return nil
 }
